@@ -10,7 +10,7 @@ observed through objects the harness owns (nothing in /repo is touched):
   source `__next__`            -> pull i / srcEnd / srcExc
   `head.value` get / set       -> hget isNone / hset         (`_tee.SimpleNamespace` shadow)
   `TeeX.next` get / set        -> nget box isNone / nset box new   (`_tee.TeeX` replaced by a subclass)
-  `TeeX.n` set                 -> inc box newcount
+  `TeeX.n` set / get           -> inc box newcount / ncmp box count   (the read inside `+=` is folded into inc)
   source lock acquire/release  -> acq ok / rel               (`_tee.threading` shadow)
   box lock acquire/release     -> bacq box / brel box
   window `Queue._put/_get`     -> put box / get box          (`_tee.queue` shadow)
@@ -134,7 +134,9 @@ class LTeeX(_OrigTeeX):
     next = property(_gnext, _snext)
 
     def _gn(self):
-        return _n_slot.__get__(self)
+        v = _n_slot.__get__(self)
+        _log('ncmp', _fork(), self.bid, v)
+        return v
 
     def _sn(self, v):
         _n_slot.__set__(self, v)
@@ -338,7 +340,14 @@ def run_case(case):
         v, e, s = detsched.run(main, chooser, max_steps=case.get('max_steps', 12000))
     finally:
         CTX = None
-    evs = [list(x) for x in ctx.ev]
+    # `box.n += 1` reads and writes within one line: drop the read that belongs to the increment,
+    # what remains of the `ncmp` events is the separate line `if box.n == self.n_forks`
+    evs = []
+    for x in ctx.ev:
+        if x[0] == 'inc' and evs and evs[-1][0] == 'ncmp' and evs[-1][1] == x[1] and evs[-1][2] == x[2] \
+                and evs[-1][3] + 1 == x[3]:
+            evs.pop()
+        evs.append(list(x))
     if e is not None and len(evs) > 700:
         evs = evs[:700]          # a hung run spins; the prefix is what gets validated and stored
     res = dict(events=evs, steps=s.steps, switches=s.switches,
